@@ -1,5 +1,8 @@
 use std::collections::BTreeMap;
 
+#[cfg(nervusdb_verif)]
+pub mod verif;
+
 /// External identifier for a node, assigned by the user.
 ///
 /// This is a stable ID that users can use to reference nodes across transactions.
